@@ -5,7 +5,7 @@ From SFC.Gen Require Import Fx Zone.
 From SFC.GenMarket Require Import Market MarketProofs.
 From SFC.GenTax Require Import Tax TaxProofs DividendProofs.
 From SFC.GenAsset Require Import WeightingProofs.
-From SFC.GenMain Require Import Program Classes Main Ledger MainProofs.
+From SFC.GenMain2 Require Import Program Classes Main Ledger MainProofs.
 Import ListNotations.
 Local Open Scope string_scope.
 Local Open Scope list_scope.
